@@ -32,7 +32,7 @@ KRY_ATOL = 1e-8  # times sqrt(n)
 DEC_RTOL = 1e-10
 ORTHO_TOL = 1e-10
 
-SPECTRA = ["generic", "psd", "diagonal", "few", "rankdef", "zero", "clustered", "tridiag"]
+SPECTRA = ["generic", "psd", "diagonal", "few", "rankdef", "zero", "clustered", "tridiag", "gapped"]
 STARTS = ["generic", "invariant", "eigvec", "near_invariant", "unit"]
 PHASES = ["+t", "-t", "+it", "-it"]
 
@@ -55,7 +55,7 @@ def krylov_cases(draw, tier):
     lo, hi = {"tiny": (1, 3), "small": (4, 12), "mid": (13, 40), "large": (41, nmax)}[ncls]
     n = draw(st.integers(0, hi - lo).map(lambda k: hi - k))  # minimal draw = upper end of the class
     block = draw(st.sampled_from([3, 2, 5, 10, 50, 30, 7, 4, 20, 13, 50]))
-    spectrum = draw(st.sampled_from(SPECTRA + ["generic", "few", "clustered"]))
+    spectrum = draw(st.sampled_from(SPECTRA + ["generic", "few", "clustered", "gapped"]))
     start = draw(st.sampled_from(STARTS + ["generic", "invariant"]))
     cplx = draw(st.booleans())
     spec = {
@@ -72,7 +72,9 @@ def krylov_cases(draw, tier):
         "sub_dim": draw(st.integers(1, 3)),
         "eps_exp": draw(st.sampled_from([6, 5.5, 3, 5, 9, 12, 14])),
         "v_real": draw(st.booleans()),
-        "vnorm": draw(st.sampled_from([1.0, 1.0, 0.1, 0.3, 5.0, 10.0])),
+        "vnorm": draw(st.sampled_from([1.0, 1.0, 0.1, 0.3, 5.0, 10.0, 100.0])),
+        # gapped spectra only: ||A|| |dt| up to 24, so that exp(dt A) v is many decades smaller / larger than v (thermal steps)
+        "xmul": draw(st.sampled_from([1, 3, 2, 1])),
         "k_distinct": draw(st.integers(1, 4)),
         "rank": draw(st.integers(1, 5)),
         "width_exp": draw(st.sampled_from([2, 4, 6, 8, 10, 13])),
@@ -317,7 +319,7 @@ def sectors(Lf, Rf, qntot):
 
 class C18(Prop):
     id = "C18"
-    rule = ("Hypothesis draws one of: (a) krylov case = (dimension 1-60 [thorough 300], spectrum class generic/psd/diagonal/"
+    rule = ("Hypothesis draws one of: (a) krylov case = (dimension 1-60 [thorough 300], spectrum class generic/psd/gapped/diagonal/"
             "few distinct/rank-deficient/zero/clustered/tridiagonal, real|complex Hermitian A, ||A|| in [1e-2,1e2], "
             "||A|||dt| in [0.01,8], dt in {+t,-t,+it,-it} passed as float / complex-with-zero-imag / numpy scalar, start vector "
             "generic / in an invariant subspace of dim 1-3 / eigenvector / near-invariant (eps 1e-3..1e-14) / unit vector, real or "
@@ -379,6 +381,11 @@ class C18(Prop):
             out.append({"kind": "krylov", "n": n, "block": block, "spectrum": "generic", "cplx": True, "normA": 1.0, "x": 2.0,
                         "phase": phase, "dt_form": "cplx0", "start": start, "sub_dim": 1, "eps_exp": 6, "v_real": True, "vnorm": 1.0,
                         "k_distinct": 2, "rank": 1, "width_exp": 6, "rng": 77 + n})
+        # thermal-like steps: spectrum away from zero, real negative dt, result 3-5 decades below the start vector
+        for n, block, x, vnorm in [(120, 7, 7.4, 100.0), (60, 3, 6.0, 10.0), (40, 50, 8.0, 100.0), (90, 10, 5.0, 1.0), (30, 4, 7.0, 10.0)]:
+            out.append({"kind": "krylov", "n": n, "block": block, "spectrum": "gapped", "cplx": n % 20 == 0, "normA": 11.0, "x": x, "xmul": 3,
+                        "phase": "-t", "dt_form": "py", "start": "generic", "sub_dim": 1, "eps_exp": 6, "v_real": n % 20 != 0, "vnorm": vnorm,
+                        "k_distinct": 2, "rank": 1, "width_exp": 6, "rng": 500 + n})
         return out
 
     # --------------------------------------------------------------------------------------------
@@ -455,6 +462,8 @@ class C18(Prop):
             lam = rng.uniform(-1, 1, n)
         elif kind == "psd":
             lam = rng.uniform(0, 1, n)
+        elif kind == "gapped":  # spectrum away from zero: with real dt the result is exponentially smaller / larger than v
+            lam = rng.uniform(0.45, 1, n)
         elif kind == "few":
             k = min(spec["k_distinct"], n)
             vals = rng.uniform(-1, 1, k)
@@ -533,7 +542,8 @@ class C18(Prop):
         v = v / np.linalg.norm(v) * spec["vnorm"]
         # effective "real vector with complex A" class
         real_start_complex_A = bool(np.iscomplexobj(A) and np.abs(A.imag).max() > 0 and not np.iscomplexobj(v))
-        t = spec["x"] / nrm if nrm > 0 else spec["x"]
+        x = spec["x"] * (spec.get("xmul", 1) if kind == "gapped" else 1)
+        t = x / nrm if nrm > 0 else x
         ph = spec["phase"]
         if ph == "+t":
             dt = t
